@@ -90,7 +90,32 @@ def cli_case(rng):
         text += s.getvalue()
         ts.append(t)
     pos = rng.random() < 0.5
-    trans = ["negra_mark_heads"] + ([] if system == "inorder" else ["binarize"])
+    std = ["negra_mark_heads"] + ([] if system == "inorder" else ["binarize"])
+    trans = list(std)
+    # the command applies what --transform lists, in the order listed, each occurrence once
+    if rng.random() < 0.6:
+        for extra in rng.sample(["root_attach", "add_topnode", "collapse_unary_chains", "punctuation_root", "negra_mark_heads"],
+                                rng.randint(1, 2)):
+            trans.insert(rng.randint(0, len(trans)), extra)
+
+    def api(tr_names):
+        res = []
+        for t in ts:
+            _, _, b = tx.run_impl([(n, {}) for n in tr_names], tx.fresh(t, 1))
+            if b is None:
+                return None
+            a = proto.enc_tree(b)
+            try:
+                with quiet():
+                    sent, tr = getattr(transitions, system)(b)
+            except Exception:
+                return None
+            res.append((a, tr))
+        return res
+    via_api = api(trans)
+    if via_api is None:          # this order is refused by the API (prerequisite missing): use the standard pipeline
+        trans = list(std)
+        via_api = api(trans)
     lines = []
     with cli.Scratch() as sc:
         src = sc.write("src.export", text)
@@ -106,18 +131,16 @@ def cli_case(rng):
         l = Line("pred", "P.C10", [system, proto.enc_tree(ts[0]), ""], note="%d lines for %d trees" % (len(out), k))
         l.expect = "one-line-per-tree"
         return Case("cli:" + system, {"text": text}, [l], nontrivial=True)
-    for t, line in zip(ts, out):
+    # the whole command against the model of transitions.run (TT.runTransitions): every line of the file
+    lines.append(Line("corr", "transitions_cli", ["-", system, "t" if pos else "f", tx.calls_str([(n, {}) for n in trans]), proto.enc_s(text)],
+                      "|".join(proto.enc_s(x) for x in out) if out else "EMPTY"))
+    for (a, tr), line in zip(via_api, out):
         # the same tree through the API (reader-equivalent content: export round trip keeps all fields)
-        calls = [(n, {}) for n in trans]
-        _, _, b = tx.run_impl(calls, tx.fresh(t, 1))
-        a = proto.enc_tree(b)
-        with quiet():
-            sent, tr = getattr(transitions, system)(b)
         lines.append(Line("corr", "plain_line", ["t" if pos else "f", a, enc_acts(tr)], proto.enc_s(line)))
         parts = line.split(" ||| ")
         acts = ",".join(proto.enc_s(x) for x in parts[1].split(" ")) if len(parts) == 2 and parts[1] else ""
         lines.append(Line("pred", "P.C10", [system, a, acts]))
-    return Case("cli:" + system, {"text": text, "pos": pos}, lines, nontrivial=True)
+    return Case("cli:" + system, {"text": text, "pos": pos, "transform": trans}, lines, nontrivial=True)
 
 
 def gen(seed, tier, scale):
